@@ -14,7 +14,7 @@ import (
 	"verif/harness/internal/stats"
 )
 
-const ruleSlow = "rapid: 2-4 groups gated and expired; one goroutine's Process starts the expiry sweep and its Broker.Send blocks inside a slow Sender; meanwhile a second goroutine calls Process (new or existing id), FlushAll or Close at a time T after all expiries; oracle = if that second call returns successfully, every group whose expiry lies before T has by then been handed to the Broker (its Send has at least begun) or emitted, and after the Sender is released and everything returned each group was sent exactly once; non-trivial = the second call was made while a Send was blocked; distinct = configuration"
+const ruleSlow = "rapid: 2-4 groups gated and expired; one goroutine's Process starts the expiry sweep and its Broker.Send blocks inside a slow Sender; meanwhile a second goroutine calls Process (new or existing id), FlushAll or Close at a time T after all expiries; oracle = if that second call returns successfully, every group whose expiry lies before T has by then been emitted (its Send through the Broker has returned), and after the Sender is released and everything returned each group was sent exactly once; non-trivial = the second call was made while a Send was blocked; distinct = configuration"
 
 type cEv struct {
 	id    string
@@ -41,8 +41,9 @@ type cComp struct {
 }
 
 type slowSender struct {
-	mu      sync.Mutex
-	started [][]int // tokens of every composite whose Send has begun
+	mu       sync.Mutex
+	started  [][]int // tokens of every composite whose Send has begun
+	finished [][]int // tokens of every composite whose Send has returned
 	entered chan struct{}
 	release chan struct{}
 	block   atomic.Bool
@@ -54,14 +55,31 @@ func (s *slowSender) Send(_ context.Context, _ eventlogger.EventType, payload in
 		s.started = append(s.started, c.toks)
 		s.mu.Unlock()
 	}
-	if s.block.Load() {
+	if s.block.CompareAndSwap(true, false) { // the first Send is held, later ones pass
 		select {
 		case s.entered <- struct{}{}:
 		default:
 		}
 		<-s.release
 	}
+	if c, ok := payload.(*cComp); ok {
+		s.mu.Lock()
+		s.finished = append(s.finished, c.toks)
+		s.mu.Unlock()
+	}
 	return eventlogger.Status{}, nil
+}
+
+func (s *slowSender) finishedToks() map[int]int {
+	s.mu.Lock()
+	defer s.mu.Unlock()
+	m := map[int]int{}
+	for _, ts := range s.finished {
+		for _, t := range ts {
+			m[t]++
+		}
+	}
+	return m
 }
 
 func (s *slowSender) startedToks() map[int]int {
@@ -140,12 +158,12 @@ func TestC17SlowBroker(t *testing.T) {
 		case err := <-secondDone:
 			returnedWhileBlocked = true
 			if err == nil {
-				st := snd.startedToks()
+				st := snd.finishedToks()
 				for _, x := range expired {
 					if st[x] == 0 {
 						close(snd.release)
 						<-firstDone
-						t.Fatalf("VIOLATION C17: %s returned successfully although the group of event %d, expired long before, had not been handed to the Broker yet (another call's Send was still in progress)\ncase: %s", second, x, d)
+						t.Fatalf("VIOLATION C17: %s returned successfully although the group of event %d, expired long before, has not been emitted yet: it is no longer gated, and its Send through the Broker (made by another call) is still in progress or has not begun\ncase: %s", second, x, d)
 					}
 				}
 			}
